@@ -167,6 +167,14 @@ func init() {
 					return ""
 				})
 			}
+			// histories: random walks of 12 operations over random sources of up to 8 symbols (StreamWalk.tla, TLC simulation)
+			walks := "num=400"
+			if c.tier == "thorough" {
+				walks = "num=8000"
+			}
+			w := c.mcHolds("StreamWalk", "StreamWalk.cfg", tlcOpts{simulate: walks, depth: 40, workers: 1})
+			wc, wr := c.replay("stream", w.cases, replayOpts{opts: map[string]string{"tmp": c.work}, chunk: 16})
+			c.judge("stream", wc, wr, func(cs, res map[string]J) string { in, _ := res["input"].(string); return in })
 			// output side: StreamOut.tla
 			o := c.mcHolds("StreamOut", "StreamOut_"+c.tier+".cfg", tlcOpts{})
 			oc, or := c.replay("streamout", o.cases, replayOpts{opts: map[string]string{"tmp": c.work}, chunk: 16})
